@@ -191,6 +191,11 @@ class GlueMixin:
             if n.func.id in GLUE_SPEC:
                 args = [self.eval(a, st) for a in n.args]
                 return getattr(self, "g_" + n.func.id)(args, st)
+            if n.func.id in ("list", "tuple") and len(n.args) == 1 and not self.spec:
+                v = self.eval(n.args[0], st)
+                if isinstance(v, Op):
+                    return Op("%s(%s)" % (n.func.id, v.text))      # a snapshot of an opaque iterable: opaque
+                return super().e_Call(ast.Call(func=n.func, args=[_GLit(v)], keywords=[]), st)
             if n.func.id == "len" and len(n.args) == 1 and not self.spec:
                 v = self.eval(n.args[0], st)
                 if isinstance(v, Op):
@@ -236,6 +241,16 @@ class GlueMixin:
             return super().e_BinOp(ast.BinOp(left=_Lit(a), op=n.op, right=_Lit(b), lineno=n.lineno, col_offset=0), st)
         return super().e_BinOp(n, st)
 
+    def e_BoolOp(self, n, st):
+        if self.glue() and not self.spec:
+            # truthiness of an opaque term: a fresh Boolean per distinct text (same treatment as `if term:` / `not term`)
+            vals = []
+            for e in n.values:
+                v = self.eval(e, st)
+                vals.append(_GLit(self.cond_bool(v.text) if isinstance(v, Op) else v))
+            return super().e_BoolOp(ast.BoolOp(op=n.op, values=vals), st)
+        return super().e_BoolOp(n, st)
+
     def e_UnaryOp(self, n, st):
         if self.glue():
             v = self.eval(n.operand, st)
@@ -247,12 +262,58 @@ class GlueMixin:
             return super().e_UnaryOp(ast.UnaryOp(op=n.op, operand=_Lit(v), lineno=n.lineno, col_offset=0), st)
         return super().e_UnaryOp(n, st)
 
+    def s_For(self, s, st):
+        """glue mode, loop over an OPAQUE iterable: the body is executed once for a generic element `<each x of it>` between
+        ("loop", it) / ("endloop", it) markers -- the events in between stand for EVERY iteration (trace predicates that count
+        calls count them per iteration); the locals the body assigns are opaque after the loop.  No value state exists in glue
+        mode (fields render as their names), so there is nothing else to havoc.  break / continue / for-else are outside."""
+        if self.glue():
+            it = self.eval(s.iter, st)
+            if isinstance(it, Op) and isinstance(s.target, ast.Name) and not s.orelse \
+                    and not any(isinstance(x, (ast.Break, ast.Continue)) for x in ast.walk(s)):
+                self.add_event(st, ("loop", it.text))
+                st.vars[s.target.id] = Op("<each %s of %s>" % (s.target.id, it.text))
+                assigned = {t.id for x in ast.walk(s) if isinstance(x, ast.Assign) for t in x.targets if isinstance(t, ast.Name)}
+                out = []
+                for (s2, oc, pl) in self.exec_block(s.body, st):
+                    if oc == "normal":
+                        for nm in assigned:
+                            s2.vars[nm] = Op("<%s after the loop over %s>" % (nm, it.text))
+                        self.add_event(s2, ("endloop", it.text))
+                    out.append((s2, oc, pl))
+                return out
+        return super().s_For(s, st)
+
     def g_branch(self, args, st):
         """polarity of the first branch condition whose text contains the fragment (None if not reached)"""
         for e in st.ghost.get("trace", []):
             if e[0] == "assume" and args[0] in e[1]:
                 return e[2]
         return None
+
+    def g_event_before(self, args, st):
+        """both fragments occur in event texts, and the LAST event containing the first fragment precedes the FIRST event
+        containing the second one"""
+        texts = [(e[2] if e[0] == "call" else "%s = %s" % (e[1], e[2])) for e in self._events(st)]
+        ia = [i for i, t in enumerate(texts) if args[0] in t]
+        ib = [i for i, t in enumerate(texts) if args[1] in t]
+        return bool(ia) and bool(ib) and ia[-1] < ib[0]
+
+    def g_in_loop(self, args, st):
+        """every event whose text contains the fragment lies between the loop / endloop markers of the loop over `it`, and
+        there is at least one"""
+        depth, seen, ok = 0, False, True
+        for e in st.ghost.get("trace", []):
+            if e[0] == "loop" and args[1] in e[1]:
+                depth += 1
+            elif e[0] == "endloop" and args[1] in e[1]:
+                depth -= 1
+            elif e[0] in ("call", "set", "setitem"):
+                t = e[2] if e[0] == "call" else "%s = %s" % (e[1], e[2])
+                if args[0] in t:
+                    seen = True
+                    ok = ok and depth > 0
+        return seen and ok
 
     def g_result_text(self, args, st):
         """canonical text of the returned opaque term"""
@@ -288,13 +349,25 @@ class GlueMixin:
             self._cond_text[b.get_id()] = text
         return self._uf_cache[key]
 
+    def cond_describe(self, c):
+        """text of a branch condition: the text of its opaque atoms under not / and / or"""
+        t = getattr(self, "_cond_text", {}).get(c.get_id())
+        if t is not None:
+            return t
+        if z3.is_not(c):
+            return "not (%s)" % self.cond_describe(c.arg(0))
+        if z3.is_and(c) or z3.is_or(c):
+            return (" and " if z3.is_and(c) else " or ").join("(%s)" % self.cond_describe(a) for a in c.children())
+        return str(c)
+
     def s_If(self, s, st):
         if not self.glue():
             return super().s_If(s, st)
-        c = as_bool(self.eval(s.test, st))
+        c = self.eval(s.test, st)
+        c = self.cond_bool(c.text) if isinstance(c, Op) else as_bool(c)
         if isinstance(c, bool):
             return self.exec_block(s.body if c else s.orelse, st)
-        text = getattr(self, "_cond_text", {}).get(c.get_id(), str(c)) if z3.is_expr(c) else str(c)
+        text = self.cond_describe(c) if z3.is_expr(c) else str(c)
         out = []
         st_t = st.fork()
         st_t.assume(c)
@@ -381,4 +454,4 @@ class GlueMixin:
         return SList([(e[2] if e[0] == "call" else "%s = %s" % (e[1], e[2])) for e in self._events(st)])
 
 
-GLUE_SPEC = {"call_arg_mentions", "swap_closed", "no_right_effect", "right_enabled", "ncalls", "call_mentions", "called_before", "sets", "event_texts", "last_store", "branch", "stored_at", "result_text"}
+GLUE_SPEC = {"call_arg_mentions", "swap_closed", "no_right_effect", "right_enabled", "ncalls", "call_mentions", "called_before", "sets", "event_texts", "last_store", "branch", "stored_at", "result_text", "event_before", "in_loop"}
